@@ -226,7 +226,8 @@ def generate(seed, prop):
     ops = [{"op": "construct", "cls": rng.choice(focus), "args": None if rng.random() < 0.6 else None}]
     ops[0]["args"] = None if rng.random() < 0.5 else draw_args(rng, ops[0]["cls"])
     n_process = 0
-    for _ in range(rng.randint(3, 20)):
+    from ..core import deep
+    for _ in range(rng.randint(3, 40 if deep() else 20)):
         name = rng.choices(names, [w[k] for k in names])[0]
         if name == "construct":
             cls = rng.choice(focus)
